@@ -184,6 +184,23 @@ func (c *Ctx) Violate(sig, detail string, replay any) {
 	c.res.Violations = append(c.res.Violations, Violation{Signature: sig, Detail: detail, Replay: replay})
 }
 
+// Journal records the case a worker is about to run in $VERIF_TMP/current-case.json. Code of the
+// repository that panics in a goroutine of its own takes the whole worker down before any
+// oracle can speak; the driver then reads the journal and reports the crash as a violation of
+// that case (signature sig) instead of a harness error. JournalDone removes the record.
+func (c *Ctx) Journal(sig string, cs any) {
+	if d := os.Getenv("VERIF_TMP"); d != "" {
+		b, _ := json.Marshal(map[string]any{"signature": sig, "case": cs})
+		os.WriteFile(d+"/current-case.json", b, 0o644)
+	}
+}
+
+func (c *Ctx) JournalDone() {
+	if d := os.Getenv("VERIF_TMP"); d != "" {
+		os.Remove(d + "/current-case.json")
+	}
+}
+
 func (c *Ctx) HarnessError(f string, a ...any) {
 	c.mu.Lock()
 	if c.res.HarnessErr == "" {
